@@ -34,6 +34,7 @@ from __future__ import annotations
 
 import os
 import shutil
+import traceback
 from typing import Any
 
 from hypothesis import strategies as st
@@ -206,7 +207,10 @@ def _child(case: dict[str, Any], workdir: str) -> dict[str, Any]:  # noqa: C901,
         elif isinstance(error, ValueError) and ex["may_raise"]:
             res["labels"].append("excluded:overlap-valueerror")
             res["excluded"] = 1
-        else:  # instrumentation failures are C01/C03/C06/C08 territory; they hide the goal graph
+        elif any(fr.name == "_create_covered_cdg" for fr in traceback.extract_tb(error.__traceback__)):
+            # pruning the CDG for the exclusions is part of building the goal graph (anchor of this property)
+            fail(f"create_covered_cdg-raises|{exc_sig(error)}|{mode}", f"{cfg_txt}\n{exc_detail(error)}\n{src[:900]}")
+        else:  # other instrumentation failures are C01/C03/C06/C08 territory; they hide the goal graph
             res["labels"].append("excluded:instrumentation-failed:" + exc_sig(error))
             res["excluded"] = 1
         return res
